@@ -51,20 +51,20 @@ Section Refine.
   Variable R : registry.
   Variables c1 c2 : cleaner.
   Variable refuse : bool.
-  Hypothesis Hc : forall n v, covered (c1 n v) (c2 n v).
+  Hypothesis Hc : forall io n v, covered (c1 io n v) (c2 io n v).
 
-  Lemma cov_check_slot : forall kind vr s val, covered (check_slot c1 kind vr s val) (check_slot c2 kind vr s val).
+  Lemma cov_check_slot : forall io kind vr s val, covered (check_slot c1 io kind vr s val) (check_slot c2 io kind vr s val).
   Proof. intros. unfold check_slot. destruct val; [|destruct (s_default s); [|apply covered_refl]]; (apply covered_seq; [apply Hc|apply covered_refl]). Qed.
 
-  Lemma cov_prop_loop : forall kind vr defined assigned order present,
-    covered (prop_loop c1 kind vr defined assigned order present) (prop_loop c2 kind vr defined assigned order present).
+  Lemma cov_prop_loop : forall io kind vr defined assigned order present,
+    covered (prop_loop c1 io kind vr defined assigned order present) (prop_loop c2 io kind vr defined assigned order present).
   Proof.
-    induction order as [|n rest IH]; intros; simpl; [apply covered_refl|].
+    intros io kind vr defined assigned. induction order as [|n rest IH]; intros; simpl; [apply covered_refl|].
     destruct (find_slot n defined); [|apply IH].
     apply covered_bind; [apply cov_check_slot|intros; apply IH].
   Qed.
 
-  Lemma cov_base_init : forall c ac kw vr, covered (base_init V R c1 c ac kw vr) (base_init V R c2 c ac kw vr).
+  Lemma cov_base_init : forall c ac io kw vr, covered (base_init V R c1 c ac io kw vr) (base_init V R c2 c ac io kw vr).
   Proof.
     intros. unfold base_init.
     apply covered_bind; [apply covered_refl|intros cpm].
@@ -75,7 +75,7 @@ Section Refine.
     apply covered_bind; [apply cov_prop_loop|intros present]. apply covered_refl.
   Qed.
 
-  Lemma cov_construct0 : forall c ac kw, covered (construct0 V R c1 c ac kw) (construct0 V R c2 c ac kw).
+  Lemma cov_construct0 : forall c ac io kw, covered (construct0 V R c1 c ac io kw) (construct0 V R c2 c ac io kw).
   Proof.
     intros. unfold construct0. cbv zeta.
     match goal with |- covered (if ?b then _ else _) _ => destruct b end; [apply covered_refl|].
@@ -95,15 +95,15 @@ Section Refine.
     apply covered_seq; [apply covered_refl|apply cov_construct0].
   Qed.
 
-  Lemma cov_construct : forall dec c ac kw, covered (construct V R c1 dec c ac kw) (construct V R c2 dec c ac kw).
+  Lemma cov_construct : forall dec c ac io kw, covered (construct V R c1 dec c ac io kw) (construct V R c2 dec c ac io kw).
   Proof.
     intros. unfold construct.
     destruct (c_pre c) as [|p rest]; [apply cov_construct0|].
     destruct p; try apply cov_construct0; (apply covered_seq; [apply cov_marking_pre|apply cov_construct0]).
   Qed.
 
-  Lemma cov_dict_to_stix2 : forall dec d nonstr ac version,
-    covered (dict_to_stix2 V R c1 refuse dec d nonstr ac version) (dict_to_stix2 V R c2 refuse dec d nonstr ac version).
+  Lemma cov_dict_to_stix2 : forall dec d nonstr ac io version,
+    covered (dict_to_stix2 V R c1 refuse dec d nonstr ac io version) (dict_to_stix2 V R c2 refuse dec d nonstr ac io version).
   Proof.
     intros. unfold dict_to_stix2.
     apply covered_bind; [apply covered_refl|intros has].
@@ -116,11 +116,15 @@ Section Refine.
     apply covered_seq; [apply covered_refl|]. apply covered_seq; [apply cov_construct|apply covered_refl].
   Qed.
 
-  Lemma cov_parse : forall dec x ac version, covered (parse V R c1 refuse dec x ac version) (parse V R c2 refuse dec x ac version).
+  Lemma cov_parse : forall dec x ac io version, covered (parse V R c1 refuse dec x ac io version) (parse V R c2 refuse dec x ac io version).
   Proof. intros. unfold parse. apply covered_bind; [apply covered_refl|intros; apply cov_dict_to_stix2]. Qed.
 
-  Lemma cov_parse_observable : forall dec x vr ac version,
-    covered (parse_observable V R c1 refuse dec x vr ac version) (parse_observable V R c2 refuse dec x vr ac version).
+  Lemma cov_parse_file : forall dec tr ac io version,
+    covered (parse_file V R c1 refuse dec tr ac io version) (parse_file V R c2 refuse dec tr ac io version).
+  Proof. intros. unfold parse_file. apply covered_bind; [apply covered_refl|intros; apply cov_dict_to_stix2]. Qed.
+
+  Lemma cov_parse_observable : forall dec x vr ac io version,
+    covered (parse_observable V R c1 refuse dec x vr ac io version) (parse_observable V R c2 refuse dec x vr ac io version).
   Proof.
     intros. unfold parse_observable.
     apply covered_bind; [apply covered_refl|intros d].
@@ -136,14 +140,14 @@ Section Refine.
 End Refine.
 
 Lemma cov_clean_via_any : forall (cl : blackbox),
-  (forall n v e, cl n v = CleanRaise e -> is_exception e = true) ->
-  forall n v, covered (clean_via cl n v) (clean_any n v).
+  (forall io n v e, cl io n v = CleanRaise e -> is_exception e = true) ->
+  forall io n v, covered (clean_via cl io n v) (clean_any io n v).
 Proof.
-  intros cl Hcl n v r Hr. unfold clean_via, lift in Hr. destruct Hr as [<-|[]].
+  intros cl Hcl io n v r Hr. unfold clean_via, lift in Hr. destruct Hr as [<-|[]].
   unfold clean_any, may. simpl.
-  destruct (cl n v) as [|e] eqn:E.
+  destruct (cl io n v) as [|e] eqn:E.
   - exists (Val tt). split; [left; reflexivity|left; reflexivity].
-  - destruct (wrapper_total_lemma e (Hcl _ _ _ E)) as [e' [He' Hs]]. rewrite He'.
+  - destruct (wrapper_total_lemma e (Hcl _ _ _ _ E)) as [e' [He' Hs]]. rewrite He'.
     exists (Exc (Known K_InvalidValueError) S_lib). split; [right; left; reflexivity|].
     right. exists e'. repeat split. exact Hs.
 Qed.
